@@ -1,6 +1,6 @@
 (* Proofs about Model/Router.v (C10). *)
-From Verif Require Import Lib.Bytes Lib.Obs.
-From Verif Require Import Gen.StatusTables Model.Router.
+From Verif Require Import Lib.Bytes Lib.Obs Lib.Base64 Lib.Percent Lib.Utf8 Lib.HeaderMap.
+From Verif Require Import Gen.StatusTables Model.Status Model.Router.
 From Coq Require Import Permutation.
 Open Scope N_scope.
 
@@ -424,4 +424,91 @@ Theorem all_orders_agree l r p path : build l = Some r -> names_ok l -> In p (pe
 Proof.
   intros Hb Hok Hp. apply perms_sound in Hp.
   destruct (route_order_independent l p r Hp Hb Hok) as [r' [H1 H2]]. eauto.
+Qed.
+
+(* ---------- sampled registration orders (index lists) ---------- *)
+Lemma pick_seq {A} (l : list A) : forall pre,
+  pick (pre ++ l) (map N.of_nat (seq (length pre) (length l))) = l.
+Proof.
+  induction l as [|x l IH]; intros pre; [reflexivity|].
+  cbn [length seq map]. unfold pick. cbn [flat_map]. rewrite Nnat.Nat2N.id.
+  rewrite nth_error_app2 by apply Nat.le_refl. rewrite Nat.sub_diag. cbn [nth_error app].
+  f_equal. specialize (IH (pre ++ [x])). rewrite <- app_assoc in IH. cbn [app] in IH.
+  rewrite app_length in IH. cbn [length] in IH. rewrite Nat.add_1_r in IH. exact IH.
+Qed.
+
+Lemma pick_perm {A} (l : list A) ix :
+  Permutation (map N.of_nat (seq 0 (length l))) ix -> Permutation l (pick l ix).
+Proof.
+  intros P. rewrite <- (pick_seq l []) at 1. cbn [app length]. unfold pick.
+  apply Permutation_flat_map. exact P.
+Qed.
+
+Theorem sampled_orders_agree l r ix path : build l = Some r -> names_ok l ->
+  Permutation (map N.of_nat (seq 0 (length l))) ix ->
+  exists r', build (pick l ix) = Some r' /\ serve r' path = serve r path.
+Proof.
+  intros Hb Hok P. destruct (route_order_independent l (pick l ix) r (pick_perm l ix P) Hb Hok) as [r' [H1 H2]].
+  eauto.
+Qed.
+
+(* ---------- the UNIMPLEMENTED answers are well-formed gRPC responses (C03 / C10) ---------- *)
+(* HTTP 200, content-type application/grpc, exactly one grpc-status = "12", no grpc-message,
+   content-length absent or 0, no body, no trailers; and a client reading these headers (Status::from_header_map) sees
+   UNIMPLEMENTED with an empty message *)
+Definition is_unimplemented_response (rp : response) : Prop :=
+  rp_status rp = 200 /\
+  hm_get_all (rp_headers rp) hdr_content_type = [val_application_grpc] /\
+  hm_get_all (rp_headers rp) hdr_grpc_status = [[49; 50]] /\
+  hm_get_all (rp_headers rp) hdr_grpc_message = [] /\
+  (hm_get_all (rp_headers rp) hdr_content_length = [] \/
+   hm_get_all (rp_headers rp) hdr_content_length = [[48]]) /\
+  rp_body rp = [] /\ rp_trailers rp = None /\
+  exists st, from_header_map (rp_headers rp) = Some st /\
+             st_code st = Code_Unimplemented /\ st_msg st = [] /\ st_details st = [].
+
+Lemma fallback_reply_wf : exists rp, axum_set_content_length fallback_reply = Reply rp /\ is_unimplemented_response rp.
+Proof.
+  eexists. split; [vm_compute; reflexivity|].
+  repeat split; try (vm_compute; reflexivity).
+  - right. vm_compute. reflexivity.
+  - eexists. split; [vm_compute; reflexivity|]. repeat split; vm_compute; reflexivity.
+Qed.
+
+Lemma default_arm_reply_wf : exists rp, default_arm_reply = Reply rp /\ is_unimplemented_response rp.
+Proof.
+  eexists. split; [vm_compute; reflexivity|].
+  repeat split; try (vm_compute; reflexivity).
+  - left. vm_compute. reflexivity.
+  - eexists. split; [vm_compute; reflexivity|]. repeat split; vm_compute; reflexivity.
+Qed.
+
+Theorem unimplemented_well_formed r path : runs_handler (serve r path) = false ->
+  exists rp, reply_of (serve r path) = Reply rp /\ is_unimplemented_response rp.
+Proof.
+  destruct (serve r path) as [S M|S|]; cbn [runs_handler reply_of]; [discriminate| |]; intros _.
+  - exact default_arm_reply_wf.
+  - exact fallback_reply_wf.
+Qed.
+
+(* the grpc-status header of the reply is the one [status_header] names *)
+Theorem status_header_in_reply o rp : reply_of o = Reply rp ->
+  exists c, status_header o = Some c /\ hm_get_all (rp_headers rp) hdr_grpc_status = [hv_of_i32 c].
+Proof.
+  destruct o as [S M|S|]; cbn [reply_of status_header]; [discriminate| |]; intros H;
+    exists Code_Unimplemented; (split; [reflexivity|]).
+  - destruct default_arm_reply_wf as [rp' [E W]]. rewrite E in H. injection H as <-.
+    destruct W as (_ & _ & W & _). rewrite W. reflexivity.
+  - destruct fallback_reply_wf as [rp' [E W]]. rewrite E in H. injection H as <-.
+    destruct W as (_ & _ & W & _). rewrite W. reflexivity.
+Qed.
+
+(* every request is answered: a handler runs, or the reply is a well-formed UNIMPLEMENTED *)
+Theorem route_total_reply r path :
+  (exists S M, serve r path = Handler S M) \/
+  (runs_handler (serve r path) = false /\
+   exists rp, reply_of (serve r path) = Reply rp /\ is_unimplemented_response rp).
+Proof.
+  destruct (serve r path) as [S M| |] eqn:E; [left; eauto | right | right];
+    (split; [reflexivity|]); rewrite <- E; apply unimplemented_well_formed; rewrite E; reflexivity.
 Qed.
